@@ -245,6 +245,9 @@ func vcFillCol(g *vhGen, v vcreflect.Value, c vcCol) {
 		v.Set(s)
 	case "composite":
 		for i := 0; i < v.NumField(); i++ {
+			if !v.Field(i).CanSet() {
+				continue // an unexported attribute keeps its zero value (it is still written and read)
+			}
 			vcFillScalar(g, v.Field(i), "smallint")
 		}
 	case "json":
